@@ -150,6 +150,93 @@ func c13Server(c *ev.Ctx) {
 		nextFile:
 			s.P.Close()
 		}
+		// ---- Tread on an xattr fid (value and name list longer than the limit) ----
+		xsizes := []uint64{m - 11, m - 10, m + 5, 2*m + 100, 4*m + 100}
+		if m >= 1<<20 {
+			xsizes = []uint64{m - 10, m + 5}
+		}
+		if m >= mib4 {
+			xsizes = []uint64{m - 11, m - 10} // larger values are refused by Txattrwalk itself
+		}
+		for _, xsz := range xsizes {
+			idx++
+			if !c.Mine(idx) || m < 35 {
+				continue // below 35 bytes the Txattrwalk request itself does not fit
+			}
+			fs := memfs.New()
+			n := fs.MkPath("/b", p9.ModeRegular|0644, "")
+			val := make([]byte, xsz)
+			for i := range val {
+				val[i] = memfs.SynthByte(77, uint64(i))
+			}
+			n.Xattr = map[string][]byte{"user.big": val}
+			// a name list of about xsz bytes as well (bounded)
+			for i := 0; uint64(i)*24 < minU64(xsz, 1<<20); i++ {
+				n.Xattr[fmt.Sprintf("user.name-%012d", i)] = nil
+			}
+			srv := p9.NewServer(fs)
+			s, vr := newSess(srv, ms, v7)
+			ok := vr.OK && s.P.RPC(wire.Tattach, u(0), u(wire.NOFID), "", "", u(wire.NOUID)).Errno() == 0 && s.walk(0, 1, "b").Errno() == 0
+			for _, xname := range []string{"user.big", ""} {
+				if !ok {
+					break
+				}
+				xw := s.P.RPC(wire.Txattrwalk, u(1), u(2), xname)
+				if !xw.OK || xw.Msg.Type != wire.Rxattrwalk {
+					c.Inconclusive(fmt.Sprintf("C13: xattrwalk msize=%d: %v", ms, xw.Msg))
+					break
+				}
+				total := xw.Msg.F[0].(uint64)
+				for _, cnt := range counts {
+					cnt &= 0xFFFFFFFF
+					if cnt > total+8 && cnt != 1<<32-1 {
+						continue // beyond the value: refused, nothing to measure
+					}
+					for _, off := range []uint64{0, 33} {
+						c.Begin(fmt.Sprintf("C13 Tread xattr %q msize=%d size=%d count=%d off=%d", xname, ms, total, cnt, off))
+						res := s.read(2, off, cnt)
+						c.Case(fmt.Sprintf("xread:%d:%s:x%s:o%d:list=%v", ms, cntClass(cnt, m), cntClass(total, m), off, xname == ""), cnt+16 >= m-11)
+						if !res.OK {
+							if res.Out == quiesce.CondMet {
+								c.Violation("C13:srv:connection-ended-on-Tread(xattr):"+cntClass(cnt, m), map[string]any{"msize": ms, "count": cnt, "off": off, "xattr_size": total})
+							} else {
+								hang(c, res.Out, res.Dump, "C13:srv:Tread(xattr)-unanswered", map[string]any{"msize": ms, "count": cnt})
+							}
+							ok = false
+							break
+						}
+						for _, mv := range s.P.Monitor() {
+							if strings.HasPrefix(mv, "msize-exceeded:Rread") {
+								c.Violation("C13:srv:Rread(xattr)-exceeds-msize:count-"+cntClass(cnt, m), map[string]any{"msize": ms, "count": cnt, "off": off, "xattr_size": total, "monitor": mv})
+							} else if !strings.HasPrefix(mv, "msize-exceeded") {
+								c.Violation("C13:srv:reply-stream:"+firstWord(mv), map[string]any{"monitor": mv})
+							}
+						}
+						if res.Msg.Type == wire.Rread {
+							d := res.Msg.F[0].([]byte)
+							if uint64(len(d)) > cnt {
+								c.Violation("C13:srv:Rread(xattr)-longer-than-asked", map[string]any{"msize": ms, "count": cnt, "got": len(d)})
+							}
+							if xname != "" {
+								for i := range d {
+									if off+uint64(i) >= uint64(len(val)) || d[i] != val[off+uint64(i)] {
+										c.Violation("C13:srv:Rread(xattr)-wrong-bytes", map[string]any{"msize": ms, "count": cnt, "off": off, "at": i})
+										break
+									}
+								}
+							}
+							c.Max("max_rread_xattr_frame", int64(len(res.Raw)))
+							c.Count("xattr_reads", 1)
+						}
+					}
+					if !ok {
+						break
+					}
+				}
+				s.clunk(2)
+			}
+			s.P.Close()
+		}
 		// ---- Treaddir ----
 		for _, dsz := range dsizes {
 			for _, nl := range []int{1, 60, 255} {
